@@ -39,17 +39,51 @@ def impl_lex(text, variant):
         return {'error': 'plylexerror', 'line': lx.lineno}
 
 
+PARSE_LIMIT_S = 10.0      # no text of the streams takes the parser more than a fraction of a second
+_timeouts = [0]           # once two parses have run out of time, later ones get two seconds (keeps a run against such code finite)
+
+
+class ParseTimeout(BaseException):
+    pass
+
+
+def _on_alarm(signum, frame):
+    raise ParseTimeout()
+
+
 def impl_parse(export, text, parser=None):
+    """one parse by the real parser, bounded in time: a parse that does not come back within PARSE_LIMIT_S (for
+    instance a token pattern that backtracks without end) is reported as such instead of hanging the check"""
+    import signal
+    import threading
     from pysmi import error
     p = parser or export['parser']
+    timed = threading.current_thread() is threading.main_thread()
+    if timed:
+        old = signal.signal(signal.SIGALRM, _on_alarm)
+        signal.setitimer(signal.ITIMER_REAL, PARSE_LIMIT_S if _timeouts[0] < 2 else 2.0)
     try:
-        return {'ast': grammar.ast_to_json(p.parse(text))}
+        try:
+            return {'ast': grammar.ast_to_json(p.parse(text))}
+        finally:
+            if timed:
+                signal.setitimer(signal.ITIMER_REAL, 0)
+    except ParseTimeout:
+        _timeouts[0] += 1
+        try:
+            p.reset()
+        except Exception:
+            pass
+        return {'error': 'other: no result within %d s' % PARSE_LIMIT_S}
     except error.PySmiParserError as e:
         return {'error': 'parser', 'line': e.lineno}
     except error.PySmiLexerError as e:
         return {'error': 'lexer', 'line': e.lineno}
     except BaseException as e:
         return {'error': 'other: %s: %s' % (type(e).__name__, e)}
+    finally:
+        if timed:
+            signal.signal(signal.SIGALRM, old)
 
 
 def parse_request(export, text):
@@ -60,6 +94,7 @@ def gen_module_text(seed, wild=False, blocks=False, layout_seed=None, positions=
     rng = random.Random(seed)
     g = mibgen.SetGen(rng, n_modules=1)
     g.nasty = nasty
+    g.names.digit_names = True          # parse-level streams only: the code generators have no spelling for such names
     g.build()
     name, m = list(g.modules.items())[0]
     text = mibgen.print_module(m, random.Random(seed if layout_seed is None else layout_seed), wild=wild, blocks=blocks,
